@@ -32,6 +32,13 @@ impl<'a, I: crate::Input> CountedInput<'a, I> {
 	pub fn count(&self) -> u64 {
 		self.counter
 	}
+
+	/// Verification hook: start counting from `start` so that saturation is reachable.
+	#[cfg(parity_scale_codec_verif)]
+	#[doc(hidden)]
+	pub fn __verif_with_count(input: &'a mut I, start: u64) -> Self {
+		Self { input, counter: start }
+	}
 }
 
 impl<I: crate::Input> crate::Input for CountedInput<'_, I> {
